@@ -159,6 +159,19 @@ def check_to_euler(ctx, cfg, F, H, M, done):
                 if bad:
                     break
                 n_reg += 1
+                # the regular branch is guarded by  threshold < sqrt(..)  with a threshold that is a small multiple of the scalar type's own
+                # epsilon: the rebuilt rotation errs by ~eps/threshold on this branch and by ~threshold on the other, so both need threshold = O(eps)
+                for c_, v_ in asg.items():
+                    ks = [x for x in c_.args if isinstance(x, tm.T) and tm.is_const(x)] if c_.op in ('flt', 'fle') else []
+                    if len(ks) != 1:
+                        continue
+                    k = tm.f_of(ks[0])
+                    eps = 2.0 ** -23 if tm.csize(ks[0]) == 4 else 2.0 ** -52
+                    if not (eps <= k <= 1024 * eps):
+                        bad = 'gimbal-lock threshold %g is %.3g times the epsilon of the scalar type (expected a small multiple: the documented 16 epsilon)' % (k, k / eps)
+                        break
+                if bad:
+                    break
             if bad is None and n_reg == 0:
                 bad = 'no regular (non gimbal-lock) branch found'
             done('R-INV-EULER', inst, bad, it)
